@@ -1,5 +1,6 @@
 # -*- coding: utf-8 -*-
 
+import copy
 import json
 from typing import (
     Any,
@@ -106,6 +107,13 @@ class ResolutionContext:
         """
         Register an error during the current execution.
         """
+        # The same exception instance can be raised more than once (e.g. a
+        # module level constant): every occurrence gets its own location.
+        try:
+            err = copy.copy(err)
+        except Exception:
+            pass
+
         if node:
             if not err.nodes:
                 err.nodes = [node]
